@@ -44,6 +44,7 @@ let handle mode op args =
   | "ps", [wp; lim; bi; a] ->
       out_bytes (dump_parse_schema d (str_of_hex wp = "1") (n_of_int (int_of_string (str_of_hex lim)))
                    (str_of_hex bi = "1") (bytes_of_hex a))
+  | "json", [a] -> out_bytes (dump_json_roundtrip d (bytes_of_hex a))
   | _ -> "BADOP"
 
 let () =
